@@ -39,11 +39,11 @@ for E, inputs in [(Code, ['x', 1]), (Nullable, [None, 0]), (Perm, [1, 3])]:
         v: E
     schema = json.loads(json.dumps(JsonSchemaGenerator(S, output=True)(), cls=JSONEncoder))
     vs = schema['properties']['v']
-    print(E.__name__, 'schema for field:', json.dumps({k: vs[k] for k in ('type', 'enum')}))
+    print(E.__name__, 'schema for field:', json.dumps({k: vs.get(k) for k in ('type', 'enum')}))
     for i in inputs:
         out = json.loads(json.dumps(S(v=i), cls=JSONEncoder))['v']
-        ok_type = jtype_ok(out, vs['type'])
-        ok_enum = any(type(out) == type(e) and out == e for e in vs['enum'])
+        ok_type = 'type' not in vs or jtype_ok(out, vs['type'])   # (a keyword that is absent constrains nothing)
+        ok_enum = 'enum' not in vs or any(type(out) == type(e) and out == e for e in vs['enum'])
         print('   input %r -> output JSON %s : type ok=%s, in enum=%s' % (i, json.dumps(out), ok_type, ok_enum))
         if not (ok_type and ok_enum):
             bad += 1
